@@ -97,8 +97,8 @@ PROPS.update({
 })
 
 SYNTAX_INVS = ['InvFoldMeans', 'InvUnsat', 'InvOrder', 'InvPrintRoundTrip']
-def mc_syntax(mode, name, quick_of, size='small', thorough_size=None, tiers=('quick', 'thorough')):
-    return dict(name=name, module='MC_Syntax', constants=dict(Mode=mode, Size=size, Emit=True, Slice='SEED', Of=quick_of),
+def mc_syntax(mode, name, quick_of, size='small', thorough_size=None, tiers=('quick', 'thorough'), caseop='rparse'):
+    return dict(name=name, module='MC_Syntax', constants=dict(Mode=mode, Size=size, Emit=True, CaseOp=caseop, Slice='SEED', Of=quick_of),
                 thorough=dict(Of=1, Size=thorough_size or size), invariants=SYNTAX_INVS, tiers=tiers)
 SYNTAX_RULE = ('cases = range texts rendered from syntax trees: every single comparator over numbers {0,1,2}, x/X/*, absent components, tags {none,-0,-a} '
                'under 9 operators and 8 spelling knobs; every hyphen pair of those partials; space-joined pairs, `||` pairs and garbage tokens in every position '
@@ -110,6 +110,46 @@ PROPS.update({
         models=[mc_syntax('single', 'MC_Syntax_single', 1), mc_syntax('hyphen', 'MC_Syntax_hyphen', 4),
                 mc_syntax('pairs', 'MC_Syntax_pairs', 8), mc_syntax('alts', 'MC_Syntax_alts', 16)],
         gens=[], events=['rparse'], rule=SYNTAX_RULE, exhaustive_models=True, assumptions=COMMON_ASSUME, probe_cap=40, chunks=14),
+})
+
+PROPS['C01']['gens'] = [dict(scenario='rtext', n=dict(quick=3000, thorough=60000))]
+PROPS.update({
+    'C02': dict(
+        models=[mc_syntax('pairs', 'MC_Syntax_pairs_concat', 4, caseop='concat'), mc_syntax('alts', 'MC_Syntax_alts_concat', 8, caseop='concat')],
+        gens=[dict(scenario='rconcat', n=dict(quick=3000, thorough=60000))],
+        events=['concat'],
+        rule='cases = pairs of range texts (a, b): every pair of comparators over numbers {0,1} of MC_Syntax (quick: a seeded slice of the first component; thorough: all) for `a b`/`b a` and `a||b`/`b || a`, + seeded random comparator lists and multi-alternative texts sharing a small pool of numbers and tags so that empty and non-empty conjunctions both occur; all four texts plus a and b are parsed by the crate; distinct = distinct (kind, a, b)',
+        exhaustive_models=True, assumptions=COMMON_ASSUME, probe_cap=40, chunks=14),
+    'C03': dict(
+        models=[mc_syntax('single', 'MC_Syntax_single', 1), mc_syntax('pairs', 'MC_Syntax_pairs', 8)],
+        gens=[dict(scenario='rtext', n=dict(quick=4000, thorough=60000))],
+        events=['rparse', 'sat'],
+        rule=SYNTAX_RULE + '; for C03 the verdict is phrased given the bounds the crate built: a prerelease is satisfied iff it lies in the bounds of the alternative and some comparator was written with a tag on its tuple; probes include same-tuple / neighbouring-tuple / foreign-tuple prereleases and build-suffixed copies',
+        exhaustive_models=True, assumptions=COMMON_ASSUME, probe_cap=40, chunks=14),
+})
+
+PROPS['C03']['gens'].append(dict(scenario='ranges', n=dict(quick=2000, thorough=30000)))
+PROPS['C03']['do'] = ['sat']
+PROPS['C03']['then'] = ['sat']
+PROPS['C11']['models'].append(mc_syntax('pairs', 'MC_Syntax_pairs', 8))
+PROPS['C11']['gens'].append(dict(scenario='rtext', n=dict(quick=2000, thorough=40000)))
+PROPS['C11']['then'] = ['minv']
+PROPS['C11']['rule'] += '; + parsed range texts (pairs of comparators of MC_Syntax, seeded random texts), min_version of each'
+PROPS.update({
+    'C13': dict(
+        models=[mc_syntax('single', 'MC_Syntax_single', 2), mc_syntax('hyphen', 'MC_Syntax_hyphen', 8), mc_syntax('pairs', 'MC_Syntax_pairs', 16),
+                mc_interval(['InvProbesComplete'])],
+        gens=[dict(scenario='rtext', n=dict(quick=3000, thorough=60000)), dict(scenario='ranges', n=dict(quick=2000, thorough=40000))],
+        do=['isect', 'diff', 'print'], then=['print'], events=['print'],
+        rule='cases = (a) range texts of MC_Syntax (single comparators, hyphen pairs, comparator pairs; seeded slices in the quick tier) and seeded random texts: each is parsed, printed, re-parsed, compared with ==, printed again, serialised and deserialised; (b) every ordered pair of intervals of MC_Interval and seeded multi-alternative pairs: A.intersect(B) and A.difference(B) are printed and re-parsed the same way; non-trivial = a print event was judged; distinct = distinct case text',
+        exhaustive_models=True, assumptions=COMMON_ASSUME + ['the `*` shape (both sides unbounded) is produced only by Range::any(), which is outside the quantifier of C13; print events on it are not judged'],
+        probe_cap=40, chunks=14),
+    'C14': dict(
+        models=[mc_syntax('single', 'MC_Syntax_single', 2), mc_syntax('pairs', 'MC_Syntax_pairs', 16)],
+        gens=[dict(scenario='rtext', n=dict(quick=4000, thorough=60000))],
+        then=['maxsat'], events=['maxsat'],
+        rule='cases = parsed range texts (MC_Syntax single comparators and pairs, seeded random texts) x the probe versions of the text as an unsorted list of up to 24 versions with duplicates and build-only variants, the same list reversed and rotated, and the empty list; the returned reference is identified by pointer identity; distinct = distinct case text',
+        exhaustive_models=True, assumptions=COMMON_ASSUME, probe_cap=40, chunks=14),
 })
 
 _LEVEL = ('TLC checks the design of the operation (spec/Interval.tla) against the declarative statement, pointwise on a complete '
@@ -138,5 +178,20 @@ MANIFEST_TEXT.update({
     'C18': dict(level='Every recorded tuple conversion (per-position exhaustive for the 8-bit types, boundary grid products and seeded values for all ten integer types) is judged by TLC against FromTuple3/FromTuple4/PrintVersion of spec/Version.tla. No bounded TLC model enumerates the inputs (the conversion has no cross-field logic); the specification is the judge, not the generator.',
                 note=_NOTE_V, design_ref='DESIGN.md section 4 (C18)', technique='trace validation (TLC) of recorded From<tuple> conversions against the TLA+ definition'),
 })
+_LEVEL_R = ('TLC checks on every syntax tree of the bounded model that the crate\'s representation (one interval per alternative plus the interval prerelease gate) '
+            'can express npm\'s documented meaning exactly (fold == comparator-list semantics, pointwise on the probe set), that unsatisfiable texts are '
+            'recognised and that every folded interval prints to a text meaning the same; each tree is rendered to text and parsed by the real crate, and every '
+            'recorded call is judged by TLC against the npm desugaring of spec/RangeSyntax.tla (README tables pinned by ASSUMEs). Exhaustive in the small scope, '
+            'seeded random trees with large numbers outside it; no proof about the Rust code.')
+_NOTE_R = ('Trusted: TLC, the harness, the transcription of the node-semver README in spec/RangeSyntax.tla (its worked examples are ASSUMEs; calibrated at design time '
+           'against node-semver 7.6.2). Known findings are attributed only when the specification with the named deviation reproduces every observation of the case.')
+MANIFEST_TEXT.update({
+    'C01': dict(level=_LEVEL_R, note=_NOTE_R, design_ref='DESIGN.md section 4 (C01), 2.4', technique='TLA+ specification of npm range desugaring, model-checked with TLC; generated range texts executed against the crate and validated by TLC (trace validation)'),
+    'C02': dict(level=_LEVEL_R, note=_NOTE_R, design_ref='DESIGN.md section 4 (C02)', technique='TLA+ model checking (TLC) of comparator-list vs interval-fold semantics + trace validation of recorded parses of a, b, `a b`, `b a`, `a||b`, `b || a`'),
+    'C03': dict(level=_LEVEL_R, note=_NOTE_R, design_ref='DESIGN.md section 4 (C03)', technique='TLA+ prerelease gate (Interval.tla Gate, RangeSyntax.tla written tags) checked by TLC + trace validation of recorded satisfies calls given the bounds the crate built'),
+    'C13': dict(level=_LEVEL_R, note=_NOTE_R, design_ref='DESIGN.md section 4 (C13)', technique='TLA+ model checking (TLC) of print/desugar round trip per interval shape + trace validation of recorded print / re-parse / == / serde calls'),
+    'C14': dict(level='Every recorded max_satisfying / min_satisfying call (parsed ranges of the bounded syntax model and seeded random texts x unsorted lists with duplicates, build-only variants and prereleases above the highest satisfying release, each list also reversed/rotated, and the empty list) is judged by TLC: the returned reference (pointer identity) is a satisfying element that no satisfying element exceeds in VCmp, None iff none satisfies, and per-element satisfies equals the specification\'s RSat on the bounds the crate built.',
+                note=_NOTE_R, design_ref='DESIGN.md section 4 (C14)', technique='trace validation (TLC) of recorded max_satisfying/min_satisfying calls against the TLA+ definition; inputs from the TLC-enumerated syntax model'),
+})
 NOT_APPLICABLE = [dict(property_id=p, reason='check under construction in this session (specification module not yet bound to the code); not claimed yet')
-                  for p in ['C01', 'C02', 'C03', 'C06', 'C13', 'C14', 'C15']]
+                  for p in ['C06', 'C15']]
